@@ -12,6 +12,7 @@ R3 PIN/CHECK-MASKS (every `legals` body): sources are `pieces(P) & own & !pinned
    legal_king_move; castling only when not in check, with the matching right, empty squares, and
    legal_king_move on the transit and the destination square; en-passant candidates come from
    adjacent_files(ep) & rank(ep) & own pawns, target ep.uforward(colour), and pass legal_ep_move.
+R5 INPUTS-FRESH (= C03.R2/R3): checkers / pinned, which the generator reads, are fresh and complete in every Board.
 R4 EP-RECHECK / KING-SAFETY: legal_ep_move recomputes slider attacks on the mover's king with both
    pawns' old squares removed and the destination added; legal_king_move removes the king from the
    occupancy, adds the destination and collects all five attacker kinds of the opponent."""
@@ -664,9 +665,20 @@ def r4(ctx):
                 ctx.violation(R, key + ':attackers', 'legal_king_move attacker set wrong: missing %s, unexpected %s' % (missing, extra[:2]), w)
 
 
+def r5(ctx):
+    """R5 INPUTS-FRESH (= C03.R2/R3): the generator reads `checkers` and `pinned` from the Board; they are recomputed after
+    the last placement change by every Board producer, with the complete attacker set (a stale or incomplete cache makes
+    the generated set wrong although every rule above holds)."""
+    from . import c03
+    sub = Sub(ctx, {'C03.R2': 'C01.R5', 'C03.R3': 'C01.R5'})
+    rec = c03.r2(sub)
+    c03.r3(sub, rec)
+
+
 def run(ctx):
     bb(('unit',), ctx.an())
     r1(ctx)
     r2(ctx)
     r3(ctx)
     r4(ctx)
+    r5(ctx)
